@@ -1,19 +1,23 @@
 import FiberModel.C04.Model
 /-
-C08 — model of the error funnel, transcribed from /repo *after* the `fix:` commit recorded in
-known/C08.json (F1):
+C08 — model of the error funnel, transcribed from /repo *after* the `fix:` commits recorded in
+known/C08.json (F1, F2, F3):
 
+  app.go    App.Group, group.go Group.Group (Prefix of nested groups)    ↔ groupPrefix
   mount.go  App.mount / Group.mount (appList keys), appendSubAppLists   ↔ nodeKeys / appList
   app.go    App.ErrorHandler (range over the map `appList`)              ↔ step / select / errorHandler
-  app.go    hasMountPrefix                                               ↔ hasMountPrefix
+  app.go    hasMountPrefix(path, prefix, caseSensitive)                  ↔ hasMountPrefix
   app.go    DefaultErrorHandler (errors.As(*Error) → Code, else 500)     ↔ defaultHandler
   router.go defaultRequestHandler / customRequestHandler (error funnel)  ↔ funnel
-  app.go    (before the fix) App.ErrorHandler                            ↔ stepOld / selectOld  (kept as
-            the record of why the repair was needed; see Props `old_order_dependent`)
+  app.go    serverErrorHandler (fasthttp-level errors: no chain ran)     ↔ SrvErr / mapServerErr / serverFunnel
+  app.go    (before the fixes) App.ErrorHandler                          ↔ stepOld / selectOld  (kept as
+            the record of why the first repair was needed; see Props `old_order_dependent`)
 
 `appList` is a Go map: the model represents it as a list of entries with pairwise different keys
 and `select` folds over the list in the order given — the theorems quantify over every permutation.
-`getGroupPath`, `mountPath`, `regPath` are the definitions of the C04 model (same Go functions).
+`getGroupPath`, `mountPath`, `regPath`, `ensureSlash`, `Cfg` are the definitions of the C04 model
+(same Go functions / configuration). Of `Cfg` only `caseSensitive` matters here: `App.ErrorHandler`
+tests `ctx.Path()` (letter case and trailing slashes as sent), never the detection path.
 
 What a handler does is part of the case: an app's own handler either answers (status 418, body
 "eh<id>:" ++ message) or fails (returns an error) — `Own.fails`.
@@ -32,18 +36,24 @@ structure Mounted where
   own : Option Own
   deriving Repr, DecidableEq
 
-/-- a mounted sub-application: `parent[.Group(gp)].Use(pre, New(Config{ErrorHandler: own}))` with
-its own mounted children -/
+/-- app.go `App.Group(g)` (`Prefix: g`) followed by group.go `Group.Group(g')`
+(`Prefix: getGroupPath(grp.Prefix, g')`) any number of times; `[]` = the app itself -/
+def groupPrefix : List Bytes → Option Bytes
+  | [] => none
+  | g :: gs => some (gs.foldl getGroupPath g)
+
+/-- a mounted sub-application: `parent[.Group(g₁).Group(g₂)…].Use(pre, New(Config{ErrorHandler: own}))`
+with its own mounted children -/
 inductive Node where
-  | mk (gp : Option Bytes) (pre : Bytes) (own : Option Own) (children : List Node)
+  | mk (gps : List Bytes) (pre : Bytes) (own : Option Own) (children : List Node)
 
 mutual
 /-- keys a sub-app (and, through it, its descendants) gets in the appList of the app it is mounted
 on: mount.go `mount` (`path := getGroupPath(prefix, mountedPrefixes)`), or — when the descendants are
 mounted later — `appendSubAppLists` (`prefix = getGroupPath(parentPrefix, prefix)`) -/
 def nodeKeys : Node → List Mounted
-  | .mk gp pre own ch =>
-    let p := mountPath (regPath gp pre)
+  | .mk gps pre own ch =>
+    let p := mountPath (regPath (groupPrefix gps) pre)
     ⟨p, own⟩ :: (nodesKeys ch).map fun m => { m with pre := getGroupPath p m.pre }
 def nodesKeys : List Node → List Mounted
   | [] => []
@@ -54,20 +64,27 @@ end
 def appList (rootOwn : Option Own) (ns : List Node) : List Mounted :=
   ⟨[], rootOwn⟩ :: nodesKeys ns
 
-/-- app.go `hasMountPrefix` -/
-def hasMountPrefix (path pre : Bytes) : Bool :=
-  pre.isPrefixOf path &&
-    (path.length == pre.length || pre.getLast? == some 47 || path[pre.length]? == some 47)
+/-- app.go `hasMountPrefix(path, prefix, caseSensitive)`: `len(path) < len(prefix)` → false;
+`head := path[:len(prefix)]; head != prefix && (caseSensitive || !utils.EqualFold(head, prefix))`
+→ false; else the boundary test -/
+def hasMountPrefix (cfg : Cfg) (path pre : Bytes) : Bool :=
+  if path.length < pre.length then false
+  else
+    let head := path.take pre.length
+    if head != pre && (cfg.caseSensitive || !equalFold head pre) then false
+    else path.length == pre.length || pre.getLast? == some 47 || path[pre.length]? == some 47
 
 /-- one iteration of the loop in `App.ErrorHandler`; the accumulator is
-(mountedErrHandler, mountedPrefixLen) -/
-def step (path : Bytes) (acc : Option Own × Nat) (m : Mounted) : Option Own × Nat :=
-  if m.pre = [] ∨ m.own = none ∨ hasMountPrefix path m.pre = false then acc
-  else if m.pre.length > acc.2 then (m.own, m.pre.length) else acc
+(mountedErrHandler, mountedPrefixLen). `if prefix[0] != '/' { prefix = "/" + prefix }` is
+`ensureSlash` (the key is not empty at that point). -/
+def step (cfg : Cfg) (path : Bytes) (acc : Option Own × Nat) (m : Mounted) : Option Own × Nat :=
+  if m.pre = [] ∨ m.own = none then acc
+  else if hasMountPrefix cfg path (ensureSlash m.pre) = false then acc
+  else if (ensureSlash m.pre).length > acc.2 then (m.own, (ensureSlash m.pre).length) else acc
 
 /-- `mountedErrHandler` after ranging over the map in the order `l` -/
-def select (l : List Mounted) (path : Bytes) : Option Own :=
-  (l.foldl (step path) (none, 0)).1
+def select (cfg : Cfg) (l : List Mounted) (path : Bytes) : Option Own :=
+  (l.foldl (step cfg path) (none, 0)).1
 
 /-- the error value as the funnel sees it: what `errors.As(err, &*Error)` finds and `err.Error()` -/
 inductive Err where
@@ -107,24 +124,58 @@ def invoke (h : Option Own) (e : Err) : Ran × Option (Nat × Bytes) :=
 
 /-- app.go `App.ErrorHandler`: the mounted handler if one was selected, else `app.config.ErrorHandler`
 (the root's configured handler or DefaultErrorHandler) — called once -/
-def errorHandler (l : List Mounted) (rootOwn : Option Own) (path : Bytes) (e : Err) :
+def errorHandler (cfg : Cfg) (l : List Mounted) (rootOwn : Option Own) (path : Bytes) (e : Err) :
     Ran × Option (Nat × Bytes) :=
-  match select l path with
+  match select cfg l path with
   | some o => invoke (some o) e
   | none => invoke rootOwn e
 
 /-- router.go `defaultRequestHandler`: `_, err := app.next(ctx); if err != nil { if catch :=
 ctx.App().ErrorHandler(ctx, err); catch != nil { ctx.SendStatus(500) } }`.
 `chain = none`: the chain returned nil — nothing is called (`none`). -/
-def funnel (l : List Mounted) (rootOwn : Option Own) (path : Bytes) (chain : Option Err) : Option Outcome :=
+def funnel (cfg : Cfg) (l : List Mounted) (rootOwn : Option Own) (path : Bytes) (chain : Option Err) :
+    Option Outcome :=
   match chain with
   | none => none
   | some e =>
-    match errorHandler l rootOwn path e with
+    match errorHandler cfg l rootOwn path e with
     | (r, some (st, body)) => some ⟨[r], st, body⟩
     | (r, none) => some ⟨[r], 500, b "Internal Server Error"⟩
 
-/-! ### the function as it was before the fix (record) -/
+/-! ### errors before routing: `serverErrorHandler` (the fasthttp server's ErrorHandler) -/
+
+/-- what `serverErrorHandler`'s switch asks of the error fasthttp hands over -/
+structure SrvErr where
+  smallBuffer : Bool    -- errors.As(err, new(*fasthttp.ErrSmallBuffer))
+  opTimeout : Bool      -- errors.As(err, &errNetOP) && errNetOP.Timeout()
+  netError : Bool       -- errors.As(err, &netErr)   (net.Error)
+  bodyTooLarge : Bool   -- errors.Is(err, fasthttp.ErrBodyTooLarge)
+  getOnly : Bool        -- errors.Is(err, fasthttp.ErrGetOnly)
+  msg : Bytes           -- err.Error()
+  deriving Repr, DecidableEq
+
+/-- the `switch` of `serverErrorHandler`, first matching case wins: ErrRequestHeaderFieldsTooLarge,
+ErrRequestTimeout, ErrBadGateway, ErrRequestEntityTooLarge, ErrMethodNotAllowed,
+`strings.Contains(err.Error(), "timeout")` → ErrRequestTimeout, default
+`NewError(StatusBadRequest, err.Error())` -/
+def mapServerErr (e : SrvErr) : Err :=
+  if e.smallBuffer then .fiber 431 (b "Request Header Fields Too Large")
+  else if e.opTimeout then .fiber 408 (b "Request Timeout")
+  else if e.netError then .fiber 502 (b "Bad Gateway")
+  else if e.bodyTooLarge then .fiber 413 (b "Request Entity Too Large")
+  else if e.getOnly then .fiber 405 (b "Method Not Allowed")
+  else if (indexOf e.msg (b "timeout")).isSome then .fiber 408 (b "Request Timeout")
+  else .fiber 400 e.msg
+
+/-- `serverErrorHandler`: `if catch := app.ErrorHandler(c, err); catch != nil { …SendStatus(500) }`
+with the mapped error; `path` is the path of the context acquired for the broken request (what
+fasthttp had parsed when it gave up: "/" after a header error, the request's path after
+ErrBodyTooLarge / ErrGetOnly — an input here, observed by the harness) -/
+def serverFunnel (cfg : Cfg) (l : List Mounted) (rootOwn : Option Own) (path : Bytes) (e : SrvErr) :
+    Option Outcome :=
+  funnel cfg l rootOwn path (some (mapServerErr e))
+
+/-! ### the function as it was before the fixes (record) -/
 
 /-- `len(strings.Split(prefix, "/"))` -/
 def parts (p : Bytes) : Nat := (splitOn p 47).length
